@@ -4,7 +4,7 @@ import vlib, reallib
 
 def run(res, tier, seed, replay):
     res.cov["rule"] = ("real: T in {2,3,4,8,16} threads, each repeatedly creating an injector (installing a thread-specific fake on one shared function) or a preventer, calling the shared function 1-4 times with PRNG-inserted yields/sleeps, "
-                       "and letting go by scope exit or by panic (25%); every event carries a global atomic sequence number; a holder counter raised right after acquiring and lowered right before letting go must never exceed 1; "
+                       "and letting go by scope exit, by panic (25%), or by a scope exit that itself panics in call-count verification (an unmet times: budget, one holder in six); every event carries a global atomic sequence number; a holder counter raised right after acquiring and lowered right before letting go must never exceed 1; "
                        "a preventer holder must see the original, an injector holder the original before and exactly its own fake after installing; runs with mprotect/__clear_cache slowed by 300 us make the restore window long, so that an unlock before "
                        "restore would let a waiting thread in and show it a patched function; all threads must finish (hand-over after panic); the recorded history is replayed on the extracted lock model (accept); "
                        "distinct = distinct (threads, slow flag) runs x acquisitions")
@@ -24,7 +24,8 @@ def run(res, tier, seed, replay):
             runs.append((f"l{len(runs)}", nt, iters, r.randrange(1, 1 << 30), 0))
         for nt in (2, 4, 16):
             runs.append((f"l{len(runs)}", nt, 12 if tier == "quick" else 40, r.randrange(1, 1 << 30), 300))
-    lines = [f"{a} {b} {c} {d} {e}" for a, b, c, d, e in runs]
+    deadline = 30 if tier == "quick" else 120        # a run takes well under 2 s; a run that makes no progress for this long is killed by the harness's watchdog (SIGALRM)
+    lines = [f"{a} {b} {c} {d} {e} {deadline}" for a, b, c, d, e in runs]
     shards = [lines[i::4] for i in range(4)]
     procs = [subprocess.Popen([exe, "lock"], stdin=subprocess.PIPE, stdout=subprocess.PIPE, text=True) for _ in shards]
     outs = [p.communicate("\n".join(s) + "\n", timeout=1200)[0] for p, s in zip(procs, shards)]
@@ -39,7 +40,7 @@ def run(res, tier, seed, replay):
         case = dict(id=rid, threads=nt, iters=iters, seed=sd, slow_us=slow, replay=f"real lock <<< '{rid} {nt} {iters} {sd} {slow}'")
         o = obs.get(rid, {})
         if o.get("CHILD") != "exit:0" or "DONE" not in o or "HIST" not in o:
-            res.violation(f"lock run did not complete ({o.get('CHILD')}): a waiting thread never got its turn, or the process died", case, str(o)[:500]); continue
+            res.violation(f"lock run did not complete ({o.get('CHILD')}{': not finished after {deadline} s, killed by the watchdog' if o.get('CHILD') == 'signal:14' else ''}): a waiting thread never got its turn, or the process died", case, str(o)[:500]); continue
         kv = dict(x.split("=") for x in o["DONE"].split())
         if kv.get("overlaps") != "0": res.violation(f"{kv.get('overlaps')} times a second thread held an injector/preventer while another one did", case, o["DONE"])
         if kv.get("after") != "4242": res.violation("the shared function is not the original after all threads finished", case, o["DONE"])
